@@ -110,6 +110,15 @@ Theorem c16_events_committed : forall cb cfg st req o ts st' resp evs,
 Proof. exact events_committed. Qed.
 Print Assumptions c16_events_committed.
 
+(* the notifications switch of the shard (NewTermOptions.EnableNotifications -> db.EnableNotifications) plays no role:
+   [c16_events_committed] holds for every state, in particular with notifications disabled; the subscriber theorems
+   below take the published keys as their only input *)
+Theorem c16_latest_observed_notifications_disabled : forall cb cfg st req o ts st' resp evs,
+  st_notif st = false ->
+  process_write_full cb cfg st req o ts = (st', Ok resp, evs) -> evs = seq_events (w_puts req) (wr_puts resp).
+Proof. exact events_committed_notifications_disabled. Qed.
+Print Assumptions c16_latest_observed_notifications_disabled.
+
 Theorem c16_events_none_on_failure : forall cb cfg st req o ts st' e evs,
   process_write_full cb cfg st req o ts = (st', Err e, evs) -> evs = [].
 Proof. exact events_none_on_failure. Qed.
